@@ -57,6 +57,17 @@ Theorem C12_write_holds : forall defs dm me h nadd,
 Proof. exact write_agree. Qed.
 Print Assumptions C12_write_holds.
 
+(* an UPDATE request submitted as text (parser -> MutationQuery::execute -> validate_mutation), touching one
+   reference field (single reference set for the first time / replaced / same target, array add, null) with or
+   without another field: whatever the glue of get_mutate_query produces (model/LocalGlue.v: the row is rewritten
+   iff some field changed; a reference is inserted only together with a rewritten row), the local verdict and the
+   peer's verdict on exactly the row, references and tombstones produced agree, for every history and caller *)
+Theorem C12_request_holds : forall defs dm me e room date author other op,
+  peer_knows dm e = true ->
+  violations12 (CReq defs dm me e room date author other op) (run_C12 (CReq defs dm me e room date author other op)) = [].
+Proof. exact request_agree. Qed.
+Print Assumptions C12_request_holds.
+
 (* deletion of a row (the API takes the deletion date and `now` from the same clock) *)
 Theorem C12_delete_row_holds : forall defs me now n,
   dn_date n = now ->
